@@ -48,6 +48,8 @@ Record closure := mkCl { cl_name : string; cl_kind : fkind; cl_params : list str
                          cl_env : env;
                          cl_super : option value;     (* content of the hidden local `super` captured at class definition *)
                          cl_owner : option nat;       (* the class whose body textually contains the function *)
+                         cl_self : option value;      (* the `self` of the textually enclosing method, for functions
+                                                         nested in a method (captured like any other variable) *)
                          cl_label : nat }.
 
 Inductive event :=
@@ -73,11 +75,16 @@ Definition emit st l := mkSt (globals st) (cells st) (heap st) (closures st) (ms
 Definition log st e := mkSt (globals st) (cells st) (heap st) (closures st) (mstore st) (hist st) (out st) (e :: trace st).
 
 Record ctx := mkCtx { c_env : env; c_local : bool; c_super : option value; c_owner : option nat; c_slot0 : value;
-                      c_depth : nat }.     (* number of call frames of the running fiber *)
+                      c_depth : nat;       (* number of call frames of the running fiber *)
+                      c_self : option value;   (* slot 0 of the frame of the textually enclosing method *)
+                      c_infn : bool }.     (* the running frame belongs to a plain function *)
+
+Definition ctx_env (c : ctx) (rho : env) (loc : bool) : ctx :=
+  mkCtx rho loc (c_super c) (c_owner c) (c_slot0 c) (c_depth c) (c_self c) (c_infn c).
 
 Definition frames_max : nat := 64.          (* common.rs FRAMES_MAX *)
 
-Definition ctx0 : ctx := mkCtx [] false None None VNil 1.
+Definition ctx0 : ctx := mkCtx [] false None None VNil 1 None false.
 
 Definition arities (st : state) : list nat := map (fun cl => S (List.length (cl_params cl))) (closures st).
 Definition world_of (st : state) : world := mkW (mstore st) (heap st) (arities st).
@@ -125,9 +132,8 @@ Definition sem_mech : sem := mkSem
 
 (* S: the receiver of a super access is the `self` (or `Self`) of the textually enclosing method *)
 Definition lexical_self (st : state) (c : ctx) : res value :=
-  let cell := match assoc "self" (c_env c) with Some a => Some a | None => assoc "Self" (c_env c) end in
-  match cell with
-  | Some a => match nth_error (cells st) a with Some v => Ok v | None => Stuck "dangling cell" end
+  match c_self c with
+  | Some v => Ok v
   | None => Stuck "super outside a method"
   end.
 
@@ -261,7 +267,7 @@ Fixpoint define_methods (rho : env) (supv : option value) (i : nat) (ms : list m
   match ms with
   | [] => Ok (st, defs)
   | MDecl k n ps body lab :: r =>
-    let '(st1, f) := new_closure st (mkCl n k ps body rho supv (Some i) lab) in
+    let '(st1, f) := new_closure st (mkCl n k ps body rho supv (Some i) None lab) in
     match run_cop (mstore st1) (op_of_kind k n (MClosure f)) with
     | Ok cs => define_methods rho supv i r (set_mstore st1 cs) (defs ++ [(n, static_of_kind k, MClosure f)])
     | Err e m => Err e m
@@ -276,15 +282,15 @@ Definition exec_class (S : sem) (c : ctx) (st : state) (cd : cdecl) : state * oc
     let i := s_next_cid S st1 in
     of_res (run_cop (mstore st1) (ODeclare name)) (fun cs =>
       let st2 := set_mstore st1 cs in
-      let c2 := mkCtx rho (c_local c) (c_super c) (c_owner c) (c_slot0 c) (c_depth c) in
+      let c2 := ctx_env c rho (c_local c) in
       let after_super (st3 : state) (supv : option value) (s : option nat) : state * oc :=
         let '(st4, defs0) :=
           match defctor with
           | Some cn =>
-            let '(st', f) := new_closure st3 (mkCl cn KInit [] [] rho supv (Some i) label) in
+            let '(st', f) := new_closure st3 (mkCl cn KInit [] [] rho supv (Some i) None label) in
             match run_cop (mstore st') (OStaticMethod cn (MClosure f)) with
             | Ok cs' => (set_mstore st' cs', [(cn, true, MClosure f)])
-            | _ => (st', [])
+            | _ => (st3, [])
             end
           | None => (st3, [])
           end in
@@ -292,7 +298,7 @@ Definition exec_class (S : sem) (c : ctx) (st : state) (cd : cdecl) : state * oc
           let '(st5, defs) := sd in
           of_res (run_cop (mstore st5) ODefine) (fun cs' =>
             let st6 := set_hist (set_mstore st5 cs') (hist st5 ++ [mkDef name s defs]) in
-            of_res (assign rho st6 name (VClass i)) (fun st7 => (st7, RNext rho)) st6) st5) st4 in
+            of_res (assign rho st6 name (VClass i)) (fun st7 => (st7, RNext rho)) st6) st3) st3 in
       match sup with
       | None => after_super st2 None None
       | Some sn =>
@@ -311,6 +317,20 @@ Fixpoint bind_params (st : state) (rho : env) (ps : list string) (vs : list valu
   | _, _ => (st, rho)
   end.
 
+(* sequencing of outcomes *)
+Definition bind_val (r : state * oc) (k : value -> state -> state * oc) : state * oc :=
+  match r with
+  | (st1, RVal v) => k v st1
+  | (st1, RVals _) | (st1, RNext _) | (st1, RRet _) => (st1, RStuck "expression outcome")
+  | other => other
+  end.
+Definition bind_vals (r : state * oc) (k : list value -> state -> state * oc) : state * oc :=
+  match r with
+  | (st1, RVals vs) => k vs st1
+  | (st1, RVal _) | (st1, RNext _) | (st1, RRet _) => (st1, RStuck "argument outcome")
+  | other => other
+  end.
+
 (* ---------- the evaluator ---------- *)
 Fixpoint ev (S : sem) (fuel : nat) (c : ctx) (t : task) (st : state) {struct fuel} : state * oc :=
   match fuel with
@@ -318,17 +338,9 @@ Fixpoint ev (S : sem) (fuel : nat) (c : ctx) (t : task) (st : state) {struct fue
   | Datatypes.S f =>
     let rec := ev S f in
     let val (e : expr) (st : state) (k : value -> state -> state * oc) : state * oc :=
-      match rec c (TE e) st with
-      | (st1, RVal v) => k v st1
-      | (st1, RVals _) | (st1, RNext _) | (st1, RRet _) => (st1, RStuck "expression outcome")
-      | other => other
-      end in
+      bind_val (rec c (TE e) st) k in
     let vals (es : list expr) (st : state) (k : list value -> state -> state * oc) : state * oc :=
-      match rec c (TA es) st with
-      | (st1, RVals vs) => k vs st1
-      | (st1, RVal _) | (st1, RNext _) | (st1, RRet _) => (st1, RStuck "argument outcome")
-      | other => other
-      end in
+      bind_vals (rec c (TA es) st) k in
     match t with
     | TE e =>
       match e with
@@ -394,7 +406,7 @@ Fixpoint ev (S : sem) (fuel : nat) (c : ctx) (t : task) (st : state) {struct fue
       | [] => (st, RNext (c_env c))
       | s :: r =>
         match rec c (T1 s) st with
-        | (st1, RNext rho) => rec (mkCtx rho (c_local c) (c_super c) (c_owner c) (c_slot0 c) (c_depth c)) (TS r) st1
+        | (st1, RNext rho) => rec (ctx_env c rho (c_local c)) (TS r) st1
         | (st1, RVal _) | (st1, RVals _) => (st1, RStuck "statement outcome")
         | other => other
         end
@@ -427,18 +439,18 @@ Fixpoint ev (S : sem) (fuel : nat) (c : ctx) (t : task) (st : state) {struct fue
         if c_local c then
           let '(st1, a) := alloc_cell st VNil in
           let rho := (name, a) :: c_env c in
-          let '(st2, fid) := new_closure st1 (mkCl name KFun ps body rho (c_super c) (c_owner c) label) in
+          let '(st2, fid) := new_closure st1 (mkCl name KFun ps body rho (c_super c) (c_owner c) (c_self c) label) in
           (set_cells st2 (list_set a (VClosure fid) (cells st2)), RNext rho)
         else
-          let '(st1, fid) := new_closure st (mkCl name KFun ps body (c_env c) (c_super c) (c_owner c) label) in
+          let '(st1, fid) := new_closure st (mkCl name KFun ps body (c_env c) (c_super c) (c_owner c) (c_self c) label) in
           (set_globals st1 (assoc_set name (VClosure fid) (globals st1)), RNext (c_env c))
       | SBlock body =>
-        match rec (mkCtx (c_env c) true (c_super c) (c_owner c) (c_slot0 c) (c_depth c)) (TS body) st with
+        match rec (ctx_env c (c_env c) true) (TS body) st with
         | (st1, RNext _) => (st1, RNext (c_env c))
         | other => other
         end
       | STry body =>
-        match rec (mkCtx (c_env c) true (c_super c) (c_owner c) (c_slot0 c) (c_depth c)) (TS body) st with
+        match rec (ctx_env c (c_env c) true) (TS body) st with
         | (st1, RNext _) => (st1, RNext (c_env c))
         | (st1, RErr k msg) => (emit (emit st1 ("<class " ++ ekind_name k ++ ">")) msg, RNext (c_env c))
         | other => other
@@ -473,7 +485,9 @@ Fixpoint ev (S : sem) (fuel : nat) (c : ctx) (t : task) (st : state) {struct fue
             | None => (st1, cl_env cl)
             end in
           let '(st3, rho) := bind_params st2 rho0 (cl_params cl) vs in
-          let c' := mkCtx rho true (cl_super cl) (cl_owner cl) slot0' (Datatypes.S (c_depth c)) in
+          let c' := mkCtx rho true (cl_super cl) (cl_owner cl) slot0' (Datatypes.S (c_depth c))
+                          (match cl_kind cl with KFun => cl_self cl | _ => Some slot0' end)
+                          (match cl_kind cl with KFun => true | _ => false end) in
           match rec c' (TS (cl_body cl)) st3 with
           | (st4, RNext _) => (st4, RVal (match cl_kind cl with KInit => slot0' | _ => VNil end))
           | (st4, RRet v) => (st4, RVal (match cl_kind cl with KInit => slot0' | _ => v end))
@@ -575,8 +589,9 @@ Fixpoint stmt_known (in_fn : bool) (s : stmt) : bool :=
   | SClass (CDecl _ _ _ ms _) =>
     (fix gm (l : list mdecl) := match l with
        | [] => false
-       | MDecl _ _ _ body _ :: r =>
-         (fix go (b : list stmt) := match b with [] => false | x :: r' => stmt_known false x || go r' end) body || gm r
+       | MDecl k _ _ body _ :: r =>
+         (match k with KFun => true | _ => false end)       (* a member is never a plain function: ill-formed *)
+         || (fix go (b : list stmt) := match b with [] => false | x :: r' => stmt_known false x || go r' end) body || gm r
        end) ms
   | SFun _ _ body _ => (fix go (l : list stmt) := match l with [] => false | x :: r => stmt_known true x || go r end) body
   | SBlock body | STry body => ss body
